@@ -12,6 +12,17 @@ def run(chk, tier):
     O.health(chk, g)
     O.c06(chk, g)
     gen_shape(chk, tier)
+    # a malformed setting that is hashed nevertheless yields a result outside the method's shape (more fields, foreign
+    # characters): the near-miss grid of C05 is evaluated here as well
+    from .. import compose_grid as CG
+    sub = Check("C06", tier)
+    sub.known = {}
+    CG.near_miss_oracle(sub, CG.run_near_miss(tier))
+    chk.rule("X-SHAPE-NEARMISS", "no setting with a character outside a field's alphabet, a leading zero in a decimal cost or a '$' inside a fixed-alphabet salt produces a result (it would not have the method's shape)")
+    for v in sub.violations:
+        chk.fail("X-SHAPE-NEARMISS", v["instance"], v["message"], v["loc"], v["detail"])
+    chk.count("X-SHAPE-NEARMISS", sub.rules["X-REJECT"]["ok"], ["near-miss"])
+    chk.deferred += sub.deferred
     extra(chk, g, tier)
     chk.note("grid", {"cells": g["ncells"], "abstract_paths": sum(c["npaths"] for c in g["res"].values()),
                       "deduplicated_states": sum(c.get("ndedup", 0) for c in g["res"].values()),
